@@ -62,11 +62,41 @@ def sources(tier, seed, ctx):
     nrand = 700 if tier == 'quick' else 20000
     for j in range(nrand):
         srcs.append({'k': 'rand', 'seed': rng.randrange(10**9), 'n': rng.randint(4, 16), 'from': 'rand'})
+    srcs += refusal_matrix()
     harvested = harvest(tier)
     note.append(f'{len(harvested)} outermost public mutator calls harvested from the repository\'s own tests run under vf/tracer.py')
     srcs += [{'k': 'harvested', 'rec': r, 'from': 'harvest'} for r in harvested]
     ctx['gen_note'] = '; '.join(note)
     return srcs
+
+
+def refusal_matrix():
+    """Scripted calls with arguments every mutator has to refuse (or, if it accepts them, has to leave a well-formed
+    circuit behind): one call each on a fixed circuit whose input order is not sorted and whose outputs repeat, each followed
+    by a copy and an ordinary mutation so that a stale structure becomes visible.  The random generator reaches most of
+    these only now and then; here each is reached on every run."""
+    init = {'g': {'c': {'t': 'INPUT', 'o': []}, 'a': {'t': 'INPUT', 'o': []}, 'b': {'t': 'INPUT', 'o': []},
+                  'g1': {'t': 'AND', 'o': ['a', 'b']}, 'g2': {'t': 'XOR', 'o': ['g1', 'c', 'g1']}, 'g3': {'t': 'NOT', 'o': ['g2']}},
+            'ord': ['c', 'a', 'b', 'g1', 'g2', 'g3'], 'i': ['c', 'a', 'b'], 'o': ['g3', 'g1', 'g3'], 'b': {}}
+    calls = [
+        {'a': 'order_inputs', 'q': ['b', 'a', 'a']}, {'a': 'order_inputs', 'q': ['a', 'a']}, {'a': 'order_inputs', 'q': ['b', 'a', 'g1']},
+        {'a': 'order_inputs', 'q': ['b', 'a', 'c', 'c']}, {'a': 'order_outputs', 'q': ['g1', 'g1', 'g3']}, {'a': 'order_outputs', 'q': ['g3', 'g3', 'g3']},
+        {'a': 'order_outputs', 'q': ['g1', 'g2']}, {'a': 'order_outputs', 'q': ['g1', 'g3', 'g3', 'g3']},
+        {'a': 'set_inputs', 'q': ['a', 'b', 'b']}, {'a': 'set_inputs', 'q': ['a', 'b']}, {'a': 'set_inputs', 'q': ['a', 'b', 'g1']},
+        {'a': 'set_inputs', 'q': ['a', 'b', 'c', 'c']}, {'a': 'set_outputs', 'q': ['g1', 'nope']}, {'a': 'mark_as_output', 'l': 'nope'},
+        {'a': 'add_gate', 'l': 'g1', 't': 'OR', 'ops': ['a', 'b']}, {'a': 'add_gate', 'l': 'h', 't': 'OR', 'ops': ['a', 'nope']},
+        {'a': 'add_gate', 'l': 'a', 't': 'INPUT', 'ops': []}, {'a': 'add_gate', 'l': 'h', 't': 'OR', 'ops': ['h', 'a']},
+        {'a': 'add_inputs', 'q': ['d', 'd']}, {'a': 'add_inputs', 'q': ['d', 'a']},
+        {'a': 'rename_gate', 'old': 'g1', 'new': 'g2'}, {'a': 'rename_gate', 'old': 'nope', 'new': 'z'}, {'a': 'rename_gate', 'old': 'a', 'new': 'c'},
+        {'a': 'remove_gate', 'l': 'g1'}, {'a': 'remove_gate', 'l': 'nope'}, {'a': 'remove_gate', 'l': 'a'},
+        {'a': 'replace_inputs', 'T': ['a'], 'F': ['a']}, {'a': 'replace_inputs', 'T': ['g1'], 'F': []}, {'a': 'replace_inputs', 'T': ['a', 'a'], 'F': []},
+        {'a': 'replace_inputs', 'T': ['nope'], 'F': ['b']}, {'a': 'replace_inputs', 'T': ['a'], 'F': ['nope']},
+        {'a': 'make_block', 'n': 'B', 'gs': ['g1', 'nope'], 'outs': ['g1']}, {'a': 'make_block', 'n': 'B', 'gs': ['g1'], 'outs': ['g2']},
+        {'a': 'make_block_from_slice', 'n': 'B', 'ins': ['g1'], 'outs': ['a']}, {'a': 'make_block_from_slice', 'n': 'B', 'ins': ['nope'], 'outs': ['g2']},
+        {'a': 'delete_block', 'n': 'nope'}, {'a': 'remove_block', 'n': 'nope'},
+    ]
+    after = [{'a': 'copy'}, {'a': 'add_gate', 'l': 'w', 't': 'OR', 'ops': ['a', 'c']}, {'a': 'rename_gate', 'old': 'b', 'new': 'bb'}, {'a': 'into_bench'}]
+    return [{'k': 'hist', 'init': init, 'acts': [call] + after, 'from': 'refusals'} for call in calls]
 
 
 def harvest(tier):
@@ -112,7 +142,7 @@ def record(src):
             step['exc'] = r['exc']
         return {'kind': 'hist', 'prop': 'C02H', 'init': r['pre'], 'steps': [step], 'src': {'k': 'harvested', 'rec': r, 'from': 'harvest'}}
     if src['k'] == 'hist':
-        case = hist.run_history(src['acts'], PROP)
+        case = hist.run_history(src['acts'], PROP, init=src.get('init'))
     else:
         case = histgen.random_history(src['seed'], src['n'], PROP)
     case['src'] = src
